@@ -58,4 +58,25 @@ example : ts.rejectIndex window_trace = some 24 := by decide
 /-- what the repaired code does instead: re-validate, release, answer session_lost -/
 example : ts.accepts (window_trace.take 24 ++ [.regAcq 1, .regRel 1, .entRel 1 0, .lost 1]) = true := by decide
 
+/-! ### a bounded wait for the entry lock in `_close_entry` (seeded change C26-2) breaks the property
+
+Not a defect of the tree: the model is parametrised by the extracted discipline (`Disc`); these are runs of the
+model under the discipline "`entry.lock.acquire(timeout=5 s)`, then go on regardless" — what the theorems of
+`Proofs/C26.lean` exclude through `timeoutDisabled`. -/
+
+/-- request 1 dispatches on session 0 for more than the bound; shutdown (thread 2) pops the entry, its timed acquire
+fails, and the close hook runs during the dispatch -/
+def timed_trace : List Label :=
+  opened0 ++ [.reqBegin 1 0, .readClock 1 0, .regAcq 1, .regRel 1, .entAcq 1 0, .regAcq 1, .regRel 1,
+    .dispatchBegin 1 0, .shutBegin 2, .regAcq 2, .regRel 2, .tick 11, .entTimeout 2 0, .closeStart 2 0, .closeEnd 2 0,
+    .mstep 1, .dispatchEnd 1 0, .entRel 1 0]
+example : (tsD ⟨some 5000, true⟩).accepts timed_trace = true := by decide
+example : monitor [.dispatchBegin 1 0, .closeStart 2 0, .closeEnd 2 0, .dispatchEnd 1 0] = [.closeDuringDispatch 1 0] := by decide
+/-- the model of the source (blocking acquire) refuses the failing acquire -/
+example : ts.rejectIndex timed_trace = some 19 := by decide
+/-- "give up instead": the ended session is never closed (the run is at rest, the entry is gone, no hook ran) -/
+example : ((tsD ⟨some 5000, false⟩).run (timed_trace.take 20 ++ [.mstep 1, .dispatchEnd 1 0, .entRel 1 0])).map
+    (fun st => (st.live 0, st.cstart 0, decide (st.pc 1 = .idle), decide (st.pc 2 = .idle))) = some (false, 0, true, true) := by
+  decide
+
 end VgiVerif.C26.Findings
